@@ -34,7 +34,7 @@ import torch
 
 from harness.lib import common as C
 
-COQ_TARGETS = ["Models/C20_run.vo"]
+COQ_TARGETS = ["Models/C20_run.vo", "Models/C20_request.vo"]
 LEVEL_NOTE = ("theorems are about the class table regenerated from the Python sources by an ast translator "
               "(trusted: its reading of attribute lookup / with-statement semantics, validated on every run by "
               "executing the same programs on the real classes and on the model)")
@@ -829,6 +829,41 @@ Definition run (n : Z) : list Z :=
 """
 
 
+REQ_IMPORTS = ("From Coq Require Import List String ZArith Bool.\n"
+               "From GPV Require Import Models.C20_ir Models.C20_check Models.C20_request Models.C20_run Gen.Settings_gen.\n"
+               "Import ListNotations.\nOpen Scope string_scope.")
+REQ_DEF = r"""
+Local Open Scope list_scope.
+Definition ser_q (q : qry) : list Z :=
+  match q with (c, m, a) => ser_str 3 c ++ ser_str 3 m ++ Z.of_nat (List.length a) :: flat_map ser_const a end.
+Definition run (case : string * list (string * sval)) : list Z :=
+  let '(c, args) := case in
+  flat_map (fun qt : qry * rspec =>
+              ser_q (fst qt) ++ ser_val (requested gen_table args (init_store gen_table) (snd qt))) (doc_requested c).
+"""
+
+
+def model_requested(cases):
+    """cases: [(class, [(param, value)])] -> per case {query: encoded value}: what the documentation table of the
+    proofs (Models/C20_request.v: doc_requested, the table c20_innermost_wins is stated with) says the block requests,
+    evaluated by Coq outside all blocks"""
+    terms = ["(%s, [%s])" % (coq_str(c), "; ".join("(%s, VK %s)" % (coq_str(p), coq_const(v)) for p, v in args))
+             for c, args in cases]
+    res = C.coq_run_cases("C20_req", REQ_IMPORTS, REQ_DEF, terms, shard=max(50, (len(terms) + 7) // 8))
+    outl = []
+    for a in res:
+        d, i = {}, 0
+        while i < len(a):
+            c, i = _rd_str(a, i)
+            m, i = _rd_str(a, i)
+            n = a[i]
+            qa, i = split_vals(a, i + 1, n)
+            (v,), i = split_vals(a, i, 1)
+            d[(c, m, tuple("".join(chr(x) for x in t[2:]) for t in qa))] = v
+        outl.append(d)
+    return outl
+
+
 def _rd_str(ints, i):
     n = ints[i + 1]
     return "".join(chr(c) for c in ints[i + 2:i + 2 + n]), i + 2 + n
@@ -1027,14 +1062,14 @@ def run(out, ctx):
                                      "position" % (4 if tier == "thorough" else 3))
     out.tested_not_proved = [
         "the Python reading of the sources by the translator (attribute lookup, with-statement protocol): tested by executing the generated programs on the real classes and on the model",
-        "innermost-block-wins against the reference semantics of the arguments (what a block requests) is tested, not proved",
+        "that the hand-written documentation table of c20_innermost_wins (Models/C20_request.v: doc_requested) says what the property means: compared on every run with the driver's reference semantics for every class and argument set",
         "arguments that are tensors / arbitrary objects (the value domain of the model has constants only)"]
     # ---- what the regenerated table says (failing classes, documented defaults)
     failing, doc_defaults, wits = [], [], {}
     model_ok = not unparsed
     if model_ok:
         if not props_ok:
-            C.build_coq(targets=["Models/C20_run.vo"])
+            C.build_coq(targets=["Models/C20_run.vo", "Models/C20_request.vo"])
         try:
             failing, doc_defaults, wits = model_aux(want_witness=not props_ok)
         except Exception as e:
@@ -1079,6 +1114,43 @@ def run(out, ctx):
                          % (qname(q), show(got), show(k)), case=dict(query=list(q), kind="default"), impl=show(got), model=show(k))
         undocumented = [c for c in W.usable if c not in seen and c not in COMPOSITES]
         out.extra["classes_without_documented_default"] = undocumented
+    # ---- the documentation table behind c20_innermost_wins (Models/C20_request.v) vs the reference semantics
+    # of the property used below: for every class and every argument set whose header the property lets complete,
+    # both must request the same value for the same queries
+    if model_ok:
+        rcases = []
+        for c in sorted(W.usable):
+            core, ext = W.argsets(c)
+            for kw in core + ext:
+                args = [(p, jval(v) if not isinstance(v, dict) else v) for p, v in kw.items()]
+                try:
+                    want = spec_enter(W, c, {p: pyval(v) for p, v in args}, W.default)
+                    [coq_const(v) for _, v in args]
+                except (CtorError, NoSpec, ValueError):
+                    continue
+                rcases.append((c, args, want))
+        try:
+            got = model_requested([(c, a) for c, a, _ in rcases])
+        except Exception as e:
+            got = None
+            out.notes.append("documentation table unavailable: %s" % str(e)[-400:])
+            if props_ok:
+                raise
+        for (c, args, want), d in zip(rcases, got or []):
+            out.count("doc-requested-case")
+            out.case(dict(requested=c, args=args), True, label="doc-requested")
+            mine = set(q for q in W.all_queries if q[0] in _closure(c))
+            if set(d) != mine:
+                out.fail("doctable:%s" % c, "the documentation table lists the queries %s for a block of %s, the driver observes %s"
+                         % (sorted(qname(q) for q in d), c, sorted(qname(q) for q in mine)), case=dict(cls=c, kind="doctable"), no_input=True)
+                continue
+            for q, v in d.items():
+                if enc(want[q]) != v:
+                    out.fail("doctable:%s" % qname(q),
+                             "`with %s(%s)`: the documentation table of the proofs requests %s = %s, the reference semantics of the property %s"
+                             % (c, ", ".join("%s=%r" % (p, pyval(x)) for p, x in args), qname(q), show(v), show(enc(want[q]))),
+                             case=dict(cls=c, args=args, kind="doctable"), impl=show(enc(want[q])), model=show(v), no_input=True)
+                    break
     # ---- programs
     warners = []
     if model_ok:
